@@ -84,25 +84,7 @@ def run(chk):
     for name in ("project_ket_on_bra_1", "project_ket_on_bra_2"):
         e8.check_flow(chk, "FF1", ep.methods[name], ["self.ket"], "projected tensor")
     # ---- FF2 siblings
-    fam = [c for c in prog.module(ENV).classes.values() if e3 in prog.class_mro(c)]
-    n = 0
-    for ci in fam:
-        for name in ("Heff0", "Heff1", "Heff2"):
-            f = ci.methods.get(name)
-            if f is None or f.cls is not ci:
-                continue
-            if any("abstractmethod" in d for d in f.decorators):
-                continue
-            rets = [r for r in A.returns_of(f.node) if r.value is not None]
-            if not rets:
-                continue
-            n += 1
-            ok = all(isinstance(r.value, ast.BinOp) and isinstance(r.value.op, ast.Mult) and
-                     "self.op.factor" in (A.text(r.value.left), A.text(r.value.right)) for r in rets)
-            chk.verdict("FF2", (f, rets[0]), rets[0].value, True if ok else False,
-                        f"{ci.name}.{name}(): the effective Hamiltonian is not multiplied by self.op.factor although its siblings are: "
-                        f"local problems use a Hamiltonian of the wrong scale whenever the MPO's factor is not 1")
-    chk.extra["Heff_siblings"] = n
+    chk.extra["Heff_siblings"] = e8.check_heff_factor(chk, "FF2")
     es = prog.cls(ENV, "Env_sum")
     for name in ("Heff0", "Heff1", "Heff2", "measure"):
         f = es.methods[name]
